@@ -148,6 +148,8 @@ class Fixture:
             "class-submodule-removed": (M, "f", {"a": T(P + ".gone", "C"), "b": NONE}, INT, None),
             "class-middle-package-removed": (M, "f", {"a": T(P + ".gone.models.deep", "C"), "b": NONE}, INT, None),
             "class-now-non-type": (M, "f", {"a": T(M, "now_int"), "b": NONE}, INT, None),
+            "nested-class-now-non-type": (M, "g", {"x": T("typing", "List", [T(M, "now_int")])}, INT, None),
+            "nested-class-now-function": (M, "f", {"a": T("typing", "Dict", [STR, T(M, "g")]), "b": NONE}, T("typing", "List", [T(M, "outer")]), None),
             "class-now-function": (M, "K.m", {"self": T(M, "K"), "a": T(M, "g")}, INT, None),
         }
 
@@ -242,15 +244,15 @@ def run_case(ctx, fx, rowspec, cmd, verbose, qual, target_mod="mod"):
 def gone_module_cases(ctx, fx):
     """the function's own module / submodule / middle package was removed: nothing is decodable"""
     for mod in ("gone", "gone.models.deep", "sub.gone", "sub.deeper.gone"):
-        for verbose in (False, True):
+        for verbose, cmd in ((False, "stub"), (True, "stub"), (False, "apply")):
             module = fx.pkg + "." + mod
             rows = [((module, "f", {"a": INT}, INT, None), 0), ((module, "K.m", {"a": STR}, INT, None), 1)]
             fx.write_db(rows)
-            spec = ["GONE", mod, verbose]
-            ctx.case(spec, True, ["function-module-removed"])
-            got = fx.command("stub", module, verbose)
+            spec = ["GONE", mod, verbose, cmd]
+            ctx.case(spec, True, ["function-module-removed", cmd])
+            got = fx.command(cmd, module, verbose)
             if got["exc"] is not None:
-                ctx.fail(f"C10/command-crashes:{type(got['exc']).__name__}", spec, f"stub {module}: {got['exc']!r}", raise_=False)
+                ctx.fail(f"C10/command-crashes:{type(got['exc']).__name__}", spec, f"{cmd} {module}: {got['exc']!r}", raise_=False)
                 continue
             import re
             lines = [l for l in got["err"].splitlines() if l.strip()]
